@@ -6,7 +6,7 @@ R-DIGITS   utils::push_column: every value of the running quotient reaches the p
 import re
 from collections import defaultdict
 
-from .kit import (walk, walk_anc, walk_k, unwrap, peel, loc, callee, callee_decl, path_local, path_def, lit_value, field_chain, norm)
+from .kit import (walk, walk_anc, walk_k, unwrap, peel, loc, callee, callee_decl, path_local, path_def, lit_value, field_chain, norm, pat_bindings)
 
 
 def _ty_core(t):
@@ -116,6 +116,8 @@ def must_use(mir, tracked, is_sink):
                 dst = s["place"]["l"]
                 rv = s["rv"]
                 reads = set(_operand_locals(rv)) & taint
+                if rv.get("k") in ("Ref", "RawPtr") and isinstance(rv.get("place"), dict) and rv["place"].get("l") in taint:
+                    reads.add(rv["place"]["l"])     # `&rev` / `&rev[..n]` of a scratch array that carries derived letters
                 derived = bool(reads) and not (rv.get("k") == "BinaryOp" and rv.get("op") in _CMP)
                 if derived:
                     taint.add(dst)
@@ -279,6 +281,8 @@ def stack_events(node, out_name="formula", canonical=False):
                 pass        # reads and traversals do not change the discipline
             elif r == "stack":
                 ev.append("stack." + n["name"])
+            elif r == "out:" + out_name and n["name"] in ("reserve", "reserve_exact", "capacity", "shrink_to_fit", "as_str", "is_empty"):
+                pass        # capacity management and reads of the output buffer change nothing of the discipline
             elif r == "out:" + out_name:
                 ev.append("out." + ("append" if n["name"] in _APPEND else n["name"]))
             return ev
@@ -547,6 +551,59 @@ def _implied_by_positive(e, lid):
     return None
 
 
+def _iter_outcomes(e, stepped):
+    """{(kind, stepped)} over the paths through expression e of one loop iteration: kind 'fall' (goes on to what
+    follows), 'cont' (`continue`), 'leave' (return / break); stepped = a continue_record() call answered true on the way"""
+    e = unwrap(e)
+    if not isinstance(e, dict):
+        return {("fall", stepped)}
+    k = e.get("k")
+    if k in ("Ret", "Break"):
+        return {("leave", stepped)}
+    if k == "Continue":
+        return {("cont", stepped)}
+    if k == "BlockExpr":
+        b = e["block"]
+        seq = []
+        for s_ in b.get("stmts", []):
+            if s_.get("k") in ("Expr", "Semi"):
+                seq.append(s_["e"])
+            elif s_.get("k") == "Let" and s_.get("init") is not None:
+                seq.append(s_["init"])
+        if b.get("expr") is not None:
+            seq.append(b["expr"])
+        cur = {("fall", stepped)}
+        for x in seq:
+            nxt = set()
+            for kind, st_ in cur:
+                if kind != "fall":
+                    nxt.add((kind, st_))
+                else:
+                    nxt |= _iter_outcomes(x, st_)
+            cur = nxt
+        return cur
+    if k == "If":
+        c = unwrap(e["cond"])
+        neg = isinstance(c, dict) and c.get("k") == "Unary" and c.get("op") == "!"
+        inner = unwrap(c["e"]) if neg else c
+        is_step = isinstance(inner, dict) and inner.get("k") == "MethodCall" and inner.get("name") == "continue_record"
+        t_st = stepped or (is_step and not neg)
+        f_st = stepped or (is_step and neg)
+        out = _iter_outcomes(e["then"], t_st)
+        out |= _iter_outcomes(e["els"], f_st) if e.get("els") is not None else {("fall", f_st)}
+        return out
+    if k == "Match":
+        if e.get("src") == "TryDesugar":
+            return _iter_outcomes(e["scrut"], stepped) | {("leave", stepped)}
+        out = set()
+        for a in e.get("arms", []):
+            out |= _iter_outcomes(a["body"], stepped)
+        return out
+    if k in ("Loop", "Closure"):
+        return {("fall", stepped)}
+    return {("fall", stepped)}
+
+
 def r_dbcs_progress(ctx, rep):
     """C06 (termination) and C12: the loop `while len > 0` of xls::read_dbcs decodes as many characters as the
     current fragment holds -- possibly none (a dangling half code unit, an exhausted fragment).  It terminates
@@ -610,6 +667,20 @@ def r_dbcs_progress(ctx, rep):
         else:
             rep.holds("R-DBCS-PROGRESS", key, loc(call), "every iteration with characters still owed moves to the next CONTINUE fragment or returns Err")
     if not done:
+        # the same loop spelt `loop { decode; if len == 0 { leave } if !r.continue_record() { return Err } .. }`: no path
+        # through one iteration reaches the next one without a successful continue_record()
+        for lp in walk_k(fn.body, "Loop"):
+            if not any(n.get("k") == "MethodCall" and n.get("name") == "continue_record" for n in walk(lp["body"])):
+                continue
+            done = True
+            outs = _iter_outcomes({"k": "BlockExpr", "block": lp["body"]} if lp["body"].get("k") == "Block" else lp["body"], False)
+            stale = [o for o in outs if o[0] in ("fall", "cont") and not o[1]]
+            if stale:
+                rep.violation("R-DBCS-PROGRESS", key, loc(lp), "an iteration of the character loop of read_dbcs can reach the next one without having moved to a further CONTINUE fragment (and without leaving): when nothing could be decoded it repeats with identical state")
+            else:
+                rep.holds("R-DBCS-PROGRESS", key, loc(lp), "every path through one iteration leaves the loop or passes a successful continue_record()")
+            break
+    if not done:
         rep.anchor_missing("R-DBCS-PROGRESS", "`while len > 0` loop with a continue_record() step in xls::read_dbcs")
 
 
@@ -638,7 +709,20 @@ def r_dbcs_enc(ctx, rep):
         if fc == ("self", ["encoding"]) or (pd or "").endswith("UTF_16LE"):
             continue
         bad.append((c, pd or "?"))
-    rets = [r for r in walk_k(fn.body, "Ret")]
+    rets = []
+    for r, anc in walk_anc(fn.body):
+        if r.get("k") != "Ret":
+            continue
+        # `if len == 0 { return (0, 0) }`: nothing asked for, nothing consumed, nothing written -- what every arm yields for 0
+        v = unwrap(r.get("e")) if r.get("e") is not None else None
+        zero = isinstance(v, dict) and v.get("k") == "Tup" and v.get("es") and all(lit_value(x) == 0 for x in v["es"])
+        ifs = [a for a in anc if a.get("k") == "If"]
+        c = unwrap(ifs[-1]["cond"]) if ifs else None
+        on_zero = isinstance(c, dict) and c.get("k") == "Binary" and c.get("op") == "==" and 0 in (lit_value(c["l"]), lit_value(c["r"])) and any(
+            path_local(x) and path_local(x)[0] == "len" for x in (peel(c["l"]), peel(c["r"])) if isinstance(x, dict))
+        if zero and on_zero and len(ifs) == 1:
+            continue
+        rets.append(r)
     if bad:
         rep.violation("R-DBCS-ENC", key, loc(bad[0][0]), "decode_to decodes one storage form with its own decoder (%s) instead of the workbook's: the same character reads differently depending on whether the writer stored it compressed or as 16 bits (e.g. U+0085 vs 0x85 in windows-1252)" % bad[0][1])
     elif rets:
@@ -1193,8 +1277,8 @@ def _lin_named(fn, e, src, depth=0):
             p_ = l_["pat"]
             if l_.get("init") is not None and p_.get("k") == "Binding" and p_.get("lid") == lid_ and "Mut)" not in (p_.get("mode") or "") and not p_.get("sub"):
                 i_ = unwrap(l_["init"])
-                if isinstance(i_, dict) and i_.get("k") == "Binary" and i_.get("op") in ("+", "-"):
-                    r_ = _lin_named(fn, i_, src, depth + 1)
+                if isinstance(i_, dict) and (i_.get("k") == "Binary" and i_.get("op") in ("+", "-") or (i_.get("k") == "MethodCall" and i_.get("name") == "len")):
+                    r_ = _lin_named(fn, i_, src, depth + 1)      # also `let row_len = row.len();`
                     if r_ is not None:
                         return r_
         return _L(0, {nm_: 1})
@@ -1228,6 +1312,8 @@ def _slice_len(fn, e, src, depth=0):
                 if r is not None:
                     return r
         return _L(0, {"len(%s)" % nm: 1})
+    if k == "Array" and not e.get("es"):
+        return _L(0)        # `&[]`
     if k == "Index":
         base = _slice_len(fn, e["e"], src, depth + 1)
         idx = unwrap(e["idx"])
@@ -1273,6 +1359,19 @@ def r_odswidth(ctx, rep):
                 calls = [c for c in walk_k(a["body"], "MethodCall") if c["name"] == "extend_from_slice"]
                 for c in calls:
                     seen_calls.add(id(c))
+                tb = unwrap(a["body"])
+                if not calls and isinstance(tb, dict) and tb.get("k") == "Tup" and tb.get("es"):
+                    # `let (kept, padding) = match row_len.cmp(&width) { Less => (&row[col_min..], &empty[row_len..]), .. }`
+                    # hoisted out of the repeat loop: the arm's slices are what the pushes of the bound names add
+                    bound = set()
+                    for l_ in walk_k(fn.body, "Let"):
+                        if l_.get("init") is not None and unwrap(l_["init"]) is m:
+                            bound = {lid for _, lid in pat_bindings(l_["pat"])}
+                    if bound:
+                        for c in walk_k(fn.body, "MethodCall"):
+                            if c["name"] == "extend_from_slice" and c.get("args") and path_local(peel(c["args"][0])) and path_local(peel(c["args"][0]))[1] in bound:
+                                seen_calls.add(id(c))
+                        calls = [{"k": "MethodCall", "name": "extend_from_slice", "args": [x], "span": x.get("span", a.get("span"))} for x in tb["es"]]
                 sub = None
                 if v.endswith("Ordering::Equal") and lhs is not None and rhs is not None and len(lhs.t) == 1 and lhs.c == 0:
                     sub = (list(lhs.t)[0], rhs)
